@@ -435,9 +435,9 @@ func gen(r *h.Rand, tier string, emit func([]string)) {
 				case x == 14:
 					ops = append(ops, "find")
 				case x < 18:
-					ops = append(ops, "release "+strconv.Itoa(r.Intn(2*plans+1)))
+					ops = append(ops, "release "+strconv.Itoa(r.Intn(plans/3+2)))
 				default:
-					ops = append(ops, fmt.Sprintf("done %d %d %d", r.Intn(2*plans+1), h.Pick(r, sizeClasses), h.Pick(r, fbcClasses)))
+					ops = append(ops, fmt.Sprintf("done %d %d %d", r.Intn(plans/3+2), h.Pick(r, sizeClasses), h.Pick(r, fbcClasses)))
 				}
 			}
 		}
@@ -468,9 +468,9 @@ func gen(r *h.Rand, tier string, emit func([]string)) {
 					plans++
 				}
 			}
-			fin := r.Intn(2*plans + 1)
+			fin := r.Intn(plans/2 + 2)
 			for i := 0; i < fin; i++ {
-				k := r.Intn(2*plans + 1)
+				k := r.Intn(plans/3 + 2)
 				if r.Chance(0.75) {
 					size := h.Pick(r, smallSizes)
 					if r.Chance(0.25) {
